@@ -70,7 +70,9 @@ Definition spec_ok (c : c05_case) : bool :=
 (* the credential check itself: BasicAuth.Validate on a list of accounts and an authorization header *)
 Inductive c05_any :=
 | CServe (c : c05_case)
-| CBasic (accounts : list (string * string)) (hdr : option (string * string)) (got : option string).
+| CBasic (accounts : list (string * string)) (hdr : option (string * string)) (got : option string)
+(* one CasbinAccess value, a policy file, a sequence of Enforce calls and the verdict of each *)
+| CCasbin (policy : list (string * string * string)) (calls : list (string * string * string)) (got : list bool).
 
 Definition ostr_eqb (a b : option string) : bool :=
   match a, b with Some x, Some y => String.eqb x y | None, None => true | _, _ => false end.
@@ -86,14 +88,22 @@ Definition basic_spec_ok (accounts : list (string * string)) (hdr : option (stri
               end
   end.
 
+Fixpoint bools_eqb (a b : list bool) : bool :=
+  match a, b with [], [] => true | x :: r, y :: r' => Bool.eqb x y && bools_eqb r r' | _, _ => false end.
+Definition casbin_agrees (policy : list (string * string * string)) (calls : list (string * string * string)) (got : list bool) : bool :=
+  bools_eqb (map (casbin_allows policy) calls) got.
+
 Fixpoint idx_where {X} (p : X -> bool) (i : nat) (l : list X) : list nat :=
   match l with [] => [] | x :: r => if p x then i :: idx_where p (S i) r else idx_where p (S i) r end.
 Definition mismatches (cs : list c05_any) :=
-  idx_where (fun c => match c with CServe c => negb (agrees c) | CBasic a h g => negb (basic_agrees a h g) end) 0 cs.
+  idx_where (fun c => match c with CServe c => negb (agrees c) | CBasic a h g => negb (basic_agrees a h g)
+                      | CCasbin p c g => negb (casbin_agrees p c g) end) 0 cs.
 Definition spec_violations (cs : list c05_any) :=
-  idx_where (fun c => match c with CServe c => negb (spec_ok c) | CBasic a h g => negb (basic_spec_ok a h g) end) 0 cs.
+  idx_where (fun c => match c with CServe c => negb (spec_ok c) | CBasic a h g => negb (basic_spec_ok a h g)
+                      | CCasbin p c g => negb (casbin_agrees p c g) end) 0 cs.
 Definition explain (c : c05_any) :=
   match c with
   | CServe c => (model_verdict c, agrees c, spec_ok c)
   | CBasic a h g => (match basic_validate a h with Some _ => RunsHandler | None => Unauthenticated end, basic_agrees a h g, basic_spec_ok a h g)
+  | CCasbin p c g => (RunsHandler, casbin_agrees p c g, casbin_agrees p c g)
   end.
